@@ -90,7 +90,8 @@ class RuleResult:
             self.findings.append(f)
 
     def check_floor(self):
-        if self.instances < self.floor:
+        # a rule that already reports a construct has seen the code: the finding wins over the floor
+        if self.instances < self.floor and not [f for f in self.findings if not f.informational]:
             raise AnalysisError(
                 f"{self.clause} [{self.rule}] matched {self.instances} instance(s), fewer than the floor {self.floor} "
                 f"confirmed by hand: an anchor vanished or the rule no longer sees the code ({self.description})"
